@@ -131,13 +131,16 @@ Proof.
       rewrite pop_n_rev by (cbn [length]; lia); cbn [bind skipn]; rewrite ?push_rev; reflexivity.
 Qed.
 (* … and when it does not parse: the tokeniser's exception, unless too few arguments *)
-Lemma checksig_unparsed scriptIn r pb o vfy ops e :
+Lemma checksig_unparsed scriptIn r pb o rest vfy ops e :
   let tmp := py_slice scriptIn pb (lenZ scriptIn) in
   raw_iter tmp = (ops, Some e) -> Forall small (r_stack r) ->
-  exec scriptIn (abs r pb) o (KChecksig vfy) = Err EvalErr \/ exec scriptIn (abs r pb) o (KChecksig vfy) = Err e.
+  ref_kind (sop_opcode o) = KChecksig vfy ->
+  sim1 (exec scriptIn (abs r pb) o (KChecksig vfy)) (exec_op (sop_opcode o) rest r) pb \/
+  exec scriptIn (abs r pb) o (KChecksig vfy) = Err e.
 Proof.
-  intros tmp E S. unfold ScriptEval.exec, abs, set_stack. cbn [stack altstack vfExec pbegincodehash nOpCount]. fold tmp.
-  destruct r as [st al vf sub nop]. cbn [r_stack r_alt r_vf r_sub r_nop] in *.
+  intros tmp E S K. unfold ScriptRef.exec_op. rewrite K. unfold ScriptEval.exec, abs, sim1, set_stack.
+  cbn [stack altstack vfExec pbegincodehash nOpCount]. fold tmp.
+  destruct r as [st al vf sub nop]. cbn [r_stack r_alt r_vf r_sub r_nop with_stack] in *.
   destruct st as [|pk [|sig st]].
   - left. rewrite check_args_rev_fail by lens. reflexivity.
   - left. rewrite check_args_rev_fail by lens. reflexivity.
